@@ -306,7 +306,7 @@ def run(case, rec):
         pr = probe if isinstance(probe, dmod.DiffuseDroplet) else dmod.DiffuseDroplet.from_droplet(probe)
         wv = pr.interface_width if pr.interface_width is not None else float(grid.typical_discretization)
         near = ndimage.binary_dilation(np.asarray(pr.copy(interface_width=wv).get_phase_field(grid).data, float) > 1e-6,
-                                       iterations=3 + int(2 * wv))
+                                       iterations=3 + int(2 * wv / float(grid.typical_discretization)))
         far = np.argwhere(~near)
         if len(far):
             r_b = np.random.default_rng(case["blemish"])
@@ -400,10 +400,19 @@ def run(case, rec):
     binary = np.asarray(promoted.get_phase_field(grid).data, float) > 0.5
     if promoted.interface_width == 0:
         binary = np.asarray(promoted.get_phase_field(grid).data, float) >= 1.0
-    iters = 1 + int(2 * promoted.interface_width)
+    # the interface width is a length: the region extends 1 + floor(2 w / h) cells beyond the candidate
+    # (h = the grid's typical spacing).  If 2 w / h is an integer up to round-off both counts are specified.
+    wc = 2 * promoted.interface_width / float(grid.typical_discretization)
+    iters = 1 + int(wc)
     region = ndimage.binary_dilation(binary, iterations=iters)
     m = int(region.sum())
     pc = proxy.calls[-1] if proxy.calls else None
+    if pc is not None and abs(wc - round(wc)) < 1e-9 and pc["m"] != m:
+        n_w = int(round(wc))
+        alt = ndimage.binary_dilation(binary, iterations=max(1, n_w if iters == 1 + n_w else 1 + n_w))
+        if int(alt.sum()) == pc["m"]:
+            region, m = alt, int(alt.sum())
+            rec.count("fit_region_count_decided_by_round_off")
     if pc is None:
         rec.count("proxy_not_reached")
     data = image[region]
